@@ -273,6 +273,32 @@ func c09Oracle(info *runInfo, res *verifsim.Result) {
 		}
 	}
 
+	// Nor by a multicast one. With max_interval = 600s the unsolicited RAs of a
+	// connection go out at 0 s, (3 s,) 16 s, 32 s ... after it came up, so a
+	// multicast RA between 4 s and 15.9 s must be the answer to a valid
+	// solicitation from :: received in the 3.5 s before it.
+	if !monitor && spec.MaxInterval != nil && *spec.MaxInterval == "600s" {
+		for _, g := range h.gens {
+			if g.ifn != ifn {
+				continue
+			}
+			for _, w := range g.writes {
+				if !w.mc() || w.t-g.t0 < 4*nsSec || w.t-g.t0 > 15900*nsMs || (stopSeq != 0 && w.seq > stopSeq) {
+					continue
+				}
+				accounted := false
+				for _, r := range g.rxs {
+					if _, ok := r.msg.(*ndp.RouterSolicitation); ok && r.hop == 255 && r.src.IsUnspecified() && r.t <= w.t && r.t >= w.t-3500*nsMs {
+						accounted = true
+					}
+				}
+				if !accounted {
+					res.Violate("C09.silent", "answered-multicast", "%s: multicast RA at %s (%s into its connection) although no valid solicitation from :: had arrived in the 3.5 s before it and no unsolicited RA was due", ifn, ms(w.t), time.Duration(w.t-g.t0))
+				}
+			}
+		}
+	}
+
 	// Counted, by type.
 	got := map[string]int64{}
 	for i := range h.ev {
